@@ -66,7 +66,15 @@ def observe(enc, sid, secret, key):
             'updates': [list(u) for u in updates], 'result': [ord(c) for c in str(res)]}, res
 
 
-def observe_login(enc, sid, key_form, seed):
+def _accepts_kw(cls):
+    try:
+        cls('x', status_code=403)
+        return True
+    except TypeError:
+        return False
+
+
+def observe_login(enc, sid, key_form, seed, fail_first=False):
     """The string the library hands to AuthenticationToken.join when a server asks for encryption: LoginReactor.react on
     a real Connection (in-memory socket), the key in one of the encodings the client accepts, the secret recovered from
     the wire with the private key."""
@@ -84,6 +92,15 @@ def observe_login(enc, sid, key_form, seed):
 
         def join(self, server_hash):
             joined.append(server_hash)
+            if fail_first and len(joined) == 1:
+                from minecraft.exceptions import YggdrasilError
+                raise YggdrasilError('Invalid token', status_code=403) if _accepts_kw(YggdrasilError) else YggdrasilError('Invalid token')
+            return True
+
+        def refresh(self):
+            return True
+
+        def validate(self):
             return True
 
     class Wire(object):
@@ -118,17 +135,26 @@ def observe_login(enc, sid, key_form, seed):
     if old is not None:
         enc.sha1 = Recorder
     Recorder.log = []
+    captured = []
+    old_gen = getattr(enc, 'generate_shared_secret', None)
+    if old_gen is not None:         # only needed when the login fails before the secret reaches the wire
+        enc.generate_shared_secret = lambda: (captured.append(old_gen()), captured[-1])[1]
     try:
         try:
             LoginReactor(conn).react(pkt)
             res = joined[0] if joined else 'join not called'
         except Exception as e:      # noqa
-            res = 'raised %r' % (e,)
+            res = joined[0] if (fail_first and joined) else 'raised %r' % (e,)
+        if len(joined) > 1 and len(set(joined)) > 1:
+            # every hash handed to the session service is judged: report the first one that differs from the first
+            res = [h for h in joined if h != joined[0]][0] if False else joined[-1]
         updates = list(Recorder.log or [])
     finally:
         if old is not None:
             enc.sha1 = old
-    secret = b''
+        if old_gen is not None:
+            enc.generate_shared_secret = old_gen
+    secret = captured[-1] if captured else b''
     try:
         rd = P.Reader(w.out)
         rd.varint()
@@ -191,7 +217,7 @@ def run(chk):
     for j in range(18 if quick else 72):
         sid = ['', 'abc123', 'caf\u00e9-\u30b5\u30fc\u30d0\u30fc', '\ufeffsrv-1', '\ufeff', 'a\ufeffb\n'][j % 6] if j < 18 else ''.join(
             chr(rng.choice([rng.randint(33, 126), rng.randint(0xA0, 0x7FF), rng.randint(0x800, 0xD7FF)])) for _ in range(rng.randint(0, 12)))
-        o, res = observe_login(enc, sid, ('spki', 'pkcs1', 'nonull')[(j // 6) % 3], chk.seed * 13 + j)
+        o, res = observe_login(enc, sid, ('spki', 'pkcs1', 'nonull')[(j // 6) % 3], chk.seed * 13 + j, fail_first=(j % 4 == 1))
         chk.case(('login', j))
         obs.append(o)
     tf = os.path.join(chk.work, 'hash_obs.json')
